@@ -167,6 +167,25 @@ partial def modelBestGo (I : Inst) (R : RoomFns) (limit : Nat) (work : List Node
     | .ok (.infeasible kids _) => modelBestGo I R limit (kids ++ rest) best (cnt + 1)
     | _ => modelBestGo I R limit rest best (cnt + 1)
 
+/- maximum feasible score below a node of the model's tree, and whether the tree is `Bounded`
+   there (no feasible node below a child of an infeasible node scores more than that node) -/
+open N2 in
+partial def modelBoundedGo (I : Inst) (R : RoomFns) (fuel : Nat) (nd : Node) : Option Nat × Bool × Nat :=
+  if fuel == 0 then (none, true, 0) else
+  match runNodeS I R nd with
+  | .ok (.feasible _ s) => (some s, true, fuel - 1)
+  | .ok (.infeasible kids s) =>
+    kids.foldl (fun (acc : Option Nat × Bool × Nat) k =>
+      let (best, ok, f) := acc
+      let (b, okk, f') := modelBoundedGo I R f k
+      let ok' := ok && okk && (match b with | some x => decide (x ≤ s) | none => true)
+      let best' := match best, b with
+        | some x, some y => some (max x y)
+        | none, y => y
+        | x, none => x
+      (best', ok', f')) (none, true, fuel - 1)
+  | _ => (none, true, fuel - 1)
+
 open N2 in
 def handleB (payload : String) : String :=
   match payload.splitOn "#" with
@@ -174,7 +193,8 @@ def handleB (payload : String) : String :=
     let (I, R) := parseInst cs ps rooms
     let (best, _, complete) := modelBestGo I R 5000 [⟨[], [], []⟩] none 0
     let b := match best with | none => "none" | some s => toString s
-    s!"best={b} complete={complete}"
+    let (_, bounded, left) := modelBoundedGo I R 5000 ⟨[], [], []⟩
+    s!"best={b} complete={complete} bounded={bounded && left > 0}"
   | _ => "bad"
 
 /-! ## S: k-selection iterator and binom -/
